@@ -68,8 +68,7 @@ Qed.
 Lemma gen_generate_auth_eq sp f :
   gen_generate_auth (sp_enc sp) (raw_base f) (f_data f) (f_mic f) = gen_auth sp f.
 Proof.
-  unfold gen_generate_auth, gen_auth. py_unfold.
-  destruct (sp_enc sp); rewrite py_slice_0; reflexivity.
+  unfold gen_generate_auth, gen_auth. py_arith.
 Qed.
 
 Lemma raw_base_length f :
@@ -97,6 +96,5 @@ Lemma gen_extract_eq sp f :
 Proof.
   unfold gen_extract_ciphertext_payload, extract, mic_absent_patched. py_unfold.
   rewrite !slice_to_neg_drop_last, !slice_from_neg_take_last.
-  destruct (sp_enc sp); [|reflexivity].
-  destruct (Nat.eqb (length (f_mic f)) 0 && sp_patched sp); reflexivity.
+  py_arith.
 Qed.
